@@ -364,6 +364,13 @@ def conformance(rep, wd: Path, quick: bool, rng: random.Random, pairs: Optional[
         rep.parts["packer_lifecycle_conformance"] = {"skipped": "no container can be packed through the plugin group: " + json.dumps(glue)[:300]}
         return
     real_update = glue["update"] == "ok"
+    from metador_core.plugins import packers as _pk
+    from metador_core import packer as _pmod
+    if not real_update and not (all(hasattr(_pk, n_) for n_ in ("_prepare", "_finalize", "_PACKER_INFO_NAME", "resolve"))
+                                and hasattr(_pmod, "Unclosable")):
+        # neither the public update nor the pieces it is made of (as named at the pinned commit) can be used
+        rep.parts["packer_lifecycle_conformance"] = {"skipped": "PGPacker.update unusable and its steps not found under their pinned names"}
+        return
     drivers = ["h5"] + [d_ for d_ in ("ih5", "mf") if glue.get("pack_" + d_) == "ok"]
     hists = []
     n = 36 if quick else 600
